@@ -22,6 +22,8 @@ PROFILES = {
               {0}, {0}, 2, 3, 1),
     "origins": (["Leaf", "Unary", "Bin"], {}, {0}, {0, 1}, 4, 5, 1),
     "classes": (["Leaf", "SubLeaf", "FLeaf", "Unary", "FUnary", "Pair", "SubMany"], {}, {0}, {0}, 3, 3, 1),
+    # a child-less base class and a subclass that adds a child field, origins varied below it
+    "inherit-kid": (["Leaf", "KLeaf", "Unary"], {}, {0}, {0, 1}, 3, 4, 1),
 }
 
 
@@ -267,7 +269,7 @@ def trace_validate(chk: core.Check, lines: list, name: str = "trace"):
 def run(chk: core.Check, pid: str):
     quick = chk.tier == "quick"
     allcases = []
-    profs = ["struct", "props", "classes"] if pid == "C01" else ["origins", "struct", "classes"]
+    profs = ["struct", "props", "classes", "inherit-kid"] if pid == "C01" else ["origins", "struct", "classes", "inherit-kid"]
     for prof in profs:
         nq, nt = PROFILES[prof][4], PROFILES[prof][5]
         runs = [(nq, None)] if quick else (nt if isinstance(nt, list) else [(nt, None)])
